@@ -128,8 +128,7 @@ theorem cells_typed (b : Buf) (he : b.kind ≠ .empty) :
   all_goals rfl
 
 theorem pushTyped_spec (k : Kind) (hk1 : k ≠ .empty) (hk2 : k ≠ .other) (b : Buf) (hwf : WF b)
-    (hc : b.kind = .empty ∨ b.kind = k) (vals : List Cell) (newp : Option (List Nat))
-    (hnd : newp.isSome = true → willHaveBitmap b = true) :
+    (hc : b.kind = .empty ∨ b.kind = k) (vals : List Cell) (newp : Option (List Nat)) :
     ∃ b', pushTyped k b vals newp = .ok b' ∧ WF b' ∧ b'.length = b.length + vals.length ∧
       b'.cells = b.cells ++ pushedCells vals newp ∧ b'.kind = k := by
   by_cases he : b.kind = .empty
@@ -162,37 +161,75 @@ theorem pushTyped_spec (k : Kind) (hk1 : k ≠ .empty) (hk2 : k ≠ .other) (b :
             simp only [decide_eq_true_eq]; omega
           have e : 0 + b.length + j - b.length = j := by omega
           rw [isSet_newBits, h1, e, isSet_initAllNull]; simp
-    · -- no rows yet: no bitmap is created; a supplied null map would be dropped (excluded by `hnd`)
+    · -- no rows yet: no bitmap unless a null map is supplied (then `push_present` creates it)
       have hL0 : b.length = 0 := by omega
-      have hnone : newp = none := by
-        cases newp with
-        | none => rfl
-        | some np =>
-          have := hnd rfl
-          simp [willHaveBitmap, hp, he, hL0] at this
-      subst hnone
-      refine ⟨{ kind := k, data := vals, length := b.length + vals.length, present := none }, ?_, ?_, rfl, ?_, rfl⟩
-      · simp [pushTyped, he, hp, hL0, pushPresent]
-      · exact ⟨hk2, fun h => absurd h hk1, fun _ => by simp [hL0], fun p h => by cases h⟩
-      · rw [cells_typed _ hk1, hbc]; simp [hL0, pushedCells]
+      cases newp with
+      | none =>
+        refine ⟨{ kind := k, data := vals, length := b.length + vals.length, present := none }, ?_, ?_, rfl, ?_, rfl⟩
+        · simp [pushTyped, he, hp, hL0, pushPresent]
+        · exact ⟨hk2, fun h => absurd h hk1, fun _ => by simp [hL0], fun p h => by cases h⟩
+        · rw [cells_typed _ hk1, hbc]; simp [hL0, pushedCells]
+      | some np =>
+        refine ⟨{ kind := k, data := vals, length := b.length + vals.length,
+                  present := some (newBits (initAllPresent b.length) (some np) b.length vals.length) }, ?_, ?_, rfl, ?_, rfl⟩
+        · simp [pushTyped, he, hp, hL0, pushPresent, newBits]
+        · refine ⟨hk2, fun h => absurd h hk1, fun _ => by simp [hL0], ?_⟩
+          intro p hpe j hj
+          cases hpe
+          have h1 : ¬ (b.length ≤ j ∧ j < b.length + vals.length) := by simp at hj; omega
+          have h2 : ¬ j < b.length := by simp at hj; omega
+          simp [isSet_newBits, isSet_initAllPresent, h1, h2]
+        · rw [cells_typed _ hk1, hbc]
+          simp only [hL0, List.replicate_zero, List.nil_append]
+          apply pushedCells_eq
+          intro j hj
+          have h1 : decide (0 ≤ 0 + j ∧ 0 + j < 0 + vals.length) = true := by
+            simp only [decide_eq_true_eq]; omega
+          rw [isSet_newBits, h1, isSet_initAllPresent]; simp
   · -- same-kind push into a typed buffer
     have hkk : b.kind = k := by cases hc with | inl h => exact absurd h he | inr h => exact h
     have hdl := hwf.dataLen he
     cases hpres : b.present with
     | none =>
-      have hnone : newp = none := by
-        cases newp with
-        | none => rfl
-        | some np =>
-          have := hnd rfl
-          simp [willHaveBitmap, hpres, he] at this
-      subst hnone
-      refine ⟨{ b with data := b.data ++ vals, length := b.length + vals.length, present := none }, ?_, ?_, rfl, ?_, hkk⟩
-      · simp [pushTyped, hkk, hk1, hpres, pushPresent]
-      · exact ⟨hwf.notOther, fun h => absurd h he, fun _ => by simp [hdl], fun p h => by cases h⟩
-      · have h1 := cells_typed b he
-        have h2 := cells_typed { b with data := b.data ++ vals, length := b.length + vals.length, present := none } he
-        rw [h2, h1, hpres]; simp [pushedCells]
+      cases newp with
+      | none =>
+        refine ⟨{ b with data := b.data ++ vals, length := b.length + vals.length, present := none }, ?_, ?_, rfl, ?_, hkk⟩
+        · simp [pushTyped, hkk, hk1, hpres, pushPresent]
+        · exact ⟨hwf.notOther, fun h => absurd h he, fun _ => by simp [hdl], fun p h => by cases h⟩
+        · have h1 := cells_typed b he
+          have h2 := cells_typed { b with data := b.data ++ vals, length := b.length + vals.length, present := none } he
+          rw [h2, h1, hpres]; simp [pushedCells]
+      | some np =>
+        -- first null map for this buffer: `init_present` marks the rows so far as present
+        refine ⟨{ b with data := b.data ++ vals, length := b.length + vals.length,
+                         present := some (newBits (initAllPresent b.length) (some np) b.length vals.length) },
+                ?_, ?_, rfl, ?_, hkk⟩
+        · simp [pushTyped, hkk, hk1, hpres, pushPresent, newBits]
+        · refine ⟨hwf.notOther, fun h => absurd h he, fun _ => by simp [hdl], ?_⟩
+          intro q hq j hj
+          cases hq
+          have h1 : ¬ (b.length ≤ j ∧ j < b.length + vals.length) := by simp at hj; omega
+          have h2 : ¬ j < b.length := by simp at hj; omega
+          simp [isSet_newBits, isSet_initAllPresent, h1, h2]
+        · have h1 := cells_typed b he
+          have h2 := cells_typed { b with data := b.data ++ vals, length := b.length + vals.length,
+                                          present := some (newBits (initAllPresent b.length) (some np) b.length vals.length) } he
+          rw [h2, h1, hpres]
+          simp only [maskFrom_append]
+          congr 1
+          · apply maskFrom_all
+            intro j hj
+            have hjl : j < b.length := by omega
+            rw [isSet_newBits, isSet_initAllPresent]; simp [hjl]
+          · rw [hdl]
+            apply pushedCells_eq
+            intro j hj
+            have h1 : decide (b.length ≤ 0 + b.length + j ∧ 0 + b.length + j < b.length + vals.length) = true := by
+              simp only [decide_eq_true_eq]; omega
+            have e : 0 + b.length + j - b.length = j := by omega
+            have h2 : decide (0 + b.length + j < b.length) = false := by
+              simp only [decide_eq_false_iff_not]; omega
+            rw [isSet_newBits, h1, e, isSet_initAllPresent, h2]; simp
     | some p =>
       have hstray := hwf.noStray p hpres
       refine ⟨{ b with data := b.data ++ vals, length := b.length + vals.length,
@@ -284,8 +321,7 @@ theorem cellsOf_length (v : SVal) : (cellsOf v).length = (dataCells v.data).leng
   cases v.present <;> simp [maskFrom_length]
 
 theorem pushDecoded_spec (k : Kind) (hk1 : k ≠ .empty) (hk2 : k ≠ .other) (b : Buf) (hwf : WF b)
-    (hbk : b.kind = .empty ∨ b.kind = k) (v : SVal) (hv : valKind v = none ∨ valKind v = some k)
-    (hnd : v.present.isSome = true → willHaveBitmap b = true) :
+    (hbk : b.kind = .empty ∨ b.kind = k) (v : SVal) (hv : valKind v = none ∨ valKind v = some k) :
     ∃ b', pushDecoded b v = .ok b' ∧ WF b' ∧ b'.length = b.length + (cellsOf v).length ∧
       b'.cells = b.cells ++ cellsOf v ∧ (b'.kind = .empty ∨ b'.kind = k) := by
   obtain ⟨data, present⟩ := v
@@ -296,7 +332,7 @@ theorem pushDecoded_spec (k : Kind) (hk1 : k ≠ .empty) (hk2 : k ≠ .other) (b
       | inl h => simp [valKind] at h
       | inr h => simp [valKind] at h; exact h.symm
     subst hk
-    obtain ⟨b', h1, h2, h3, h4, h5⟩ := pushTyped_spec .int hk1 hk2 b hwf hbk (d.map .int) present hnd
+    obtain ⟨b', h1, h2, h3, h4, h5⟩ := pushTyped_spec .int hk1 hk2 b hwf hbk (d.map .int) present
     refine ⟨b', by simpa [pushDecoded] using h1, h2, ?_, ?_, Or.inr h5⟩
     · rw [h3, cellsOf_length]; simp [dataCells]
     · rw [h4]; cases present <;> simp [pushedCells, cellsOf, dataCells]
@@ -306,7 +342,7 @@ theorem pushDecoded_spec (k : Kind) (hk1 : k ≠ .empty) (hk2 : k ≠ .other) (b
       | inl h => simp [valKind] at h
       | inr h => simp [valKind] at h; exact h.symm
     subst hk
-    obtain ⟨b', h1, h2, h3, h4, h5⟩ := pushTyped_spec .float hk1 hk2 b hwf hbk (d.map .float) present hnd
+    obtain ⟨b', h1, h2, h3, h4, h5⟩ := pushTyped_spec .float hk1 hk2 b hwf hbk (d.map .float) present
     refine ⟨b', by simpa [pushDecoded] using h1, h2, ?_, ?_, Or.inr h5⟩
     · rw [h3, cellsOf_length]; simp [dataCells]
     · rw [h4]; cases present <;> simp [pushedCells, cellsOf, dataCells]
@@ -316,7 +352,7 @@ theorem pushDecoded_spec (k : Kind) (hk1 : k ≠ .empty) (hk2 : k ≠ .other) (b
       | inl h => simp [valKind] at h
       | inr h => simp [valKind] at h; exact h.symm
     subst hk
-    obtain ⟨b', h1, h2, h3, h4, h5⟩ := pushTyped_spec .str hk1 hk2 b hwf hbk (d.map .str) present hnd
+    obtain ⟨b', h1, h2, h3, h4, h5⟩ := pushTyped_spec .str hk1 hk2 b hwf hbk (d.map .str) present
     refine ⟨b', by simpa [pushDecoded] using h1, h2, ?_, ?_, Or.inr h5⟩
     · rw [h3, cellsOf_length]; simp [dataCells]
     · rw [h4]; cases present <;> simp [pushedCells, cellsOf, dataCells]
@@ -344,34 +380,24 @@ theorem pushDecoded_spec (k : Kind) (hk1 : k ≠ .empty) (hk2 : k ≠ .other) (b
     | inl h => simp [valKind] at h
     | inr h => simp [valKind] at h; exact absurd h.symm hk2
 
-/-- The rebuilt buffer of a single-typed column reads as the concatenation of the decoded values' cells,
-    provided no null map is dropped (`dropsNullMap`, the open finding). All sequences, lengths, bitmaps. -/
+/-- The rebuilt buffer of a single-typed column reads as the concatenation of the decoded values' cells.
+    All sequences, lengths, bitmaps. -/
 theorem pushAll_spec (k : Kind) (hk1 : k ≠ .empty) (hk2 : k ≠ .other) (vs : List SVal) :
-    ∀ (b : Buf), WF b → (b.kind = .empty ∨ b.kind = k) → homog k vs = true → dropsNullMap b vs = false →
+    ∀ (b : Buf), WF b → (b.kind = .empty ∨ b.kind = k) → homog k vs = true →
     ∃ b', pushAll b vs = .ok b' ∧ WF b' ∧ b'.length = b.length + ((vs.map fun v => (cellsOf v).length).sum) ∧
       b'.cells = b.cells ++ vs.flatMap cellsOf := by
   induction vs with
-  | nil => intro b hwf _ _ _; exact ⟨b, rfl, hwf, by simp, by simp⟩
+  | nil => intro b hwf _ _; exact ⟨b, rfl, hwf, by simp, by simp⟩
   | cons v vs ih =>
-    intro b hwf hbk hh hd
+    intro b hwf hbk hh
     have hv : valKind v = none ∨ valKind v = some k := by
       simp only [homog, List.all_cons, Bool.and_eq_true, Bool.or_eq_true, beq_iff_eq] at hh
       exact hh.1
     have hh' : homog k vs = true := by
       simp only [homog, List.all_cons, Bool.and_eq_true] at hh
       exact hh.2
-    have hnd : v.present.isSome = true → willHaveBitmap b = true := by
-      intro hp
-      cases hw : willHaveBitmap b with
-      | true => rfl
-      | false => simp [dropsNullMap, hp, hw] at hd
-    obtain ⟨b1, h1, h2, h3, h4, h5⟩ := pushDecoded_spec k hk1 hk2 b hwf hbk v hv hnd
-    have hd' : dropsNullMap b1 vs = false := by
-      simp only [dropsNullMap, h1] at hd
-      split at hd
-      · cases hd
-      · exact hd
-    obtain ⟨b', g1, g2, g3, g4⟩ := ih b1 h2 h5 hh' hd'
+    obtain ⟨b1, h1, h2, h3, h4, h5⟩ := pushDecoded_spec k hk1 hk2 b hwf hbk v hv
+    obtain ⟨b', g1, g2, g3, g4⟩ := ih b1 h2 h5 hh'
     refine ⟨b', by simp [pushAll, h1, g1], g2, ?_, ?_⟩
     · rw [g3, h3]; simp; omega
     · rw [g4, h4]; simp
